@@ -271,6 +271,7 @@ def validate_traces(module, trace_files, parallel=8, timeout=3600, branch_pos=3,
                          timeout=timeout, xmx=xmx, name="%s_%d" % (module, i)))
     t0 = time.time()
     results = tlc_many(jobs, parallel)
+    out.results = results
     out.wall = time.time() - t0
     for t, r in zip(trace_files, results):
         events = read_ndjson(t)
